@@ -736,6 +736,33 @@ func ttlBackgroundProbe(add ttlAdd) {
 	if n := len(cat.Namespaces[lungo.Oplog].Documents.List); n != n0+1 {
 		add("C19:background-loop-events", fmt.Sprintf("the background loop logged %d events for one removed document", n-n0), detail)
 	}
+
+	// expiry by the passing of time alone: a document that is fresh when it is
+	// written crosses the cut-off while the database is idle (no commits, so
+	// the catalog stays the same object); the loop must still remove it
+	idle := client.Database("db").Collection("idle")
+	if _, err := idle.Indexes().CreateOne(ctx, mongo.IndexModel{Keys: bson.D{{Key: "a", Value: int32(1)}}, Options: options.Index().SetExpireAfterSeconds(1)}); err != nil {
+		return
+	}
+	idle.InsertOne(ctx, bson.D{{Key: "_id", Value: "fresh"}, {Key: "a", Value: primitive.NewDateTimeFromTime(time.Now())}})
+	time.Sleep(300 * time.Millisecond) // several passes that find nothing
+	hi := lungo.Handle{"db", "idle"}
+	if len(engine.Catalog().Namespaces[hi].Documents.List) != 1 {
+		add("C19:background-loop-removed-wrong-documents", "a document younger than its 1 s expiry was removed by the background loop", detail)
+		return
+	}
+	gone := false
+	deadline = time.Now().Add(3 * time.Second)
+	for time.Now().Before(deadline) {
+		time.Sleep(50 * time.Millisecond)
+		if len(engine.Catalog().Namespaces[hi].Documents.List) == 0 {
+			gone = true
+			break
+		}
+	}
+	if !gone {
+		add("C19:background-loop-did-not-expire-idle", "a document that crossed its 1 s expiry while the database was idle (no commits) was not removed by the background loop within 3 s", detail)
+	}
 }
 
 func oracleTTL(r *rng, n int, st *oracleStats) []oracleFailure {
